@@ -181,6 +181,11 @@ class World:
             return {"live": False}
         return self.fx.project(s)
 
+    def names_of(self, pmap, ids):
+        """the plate-name tokens the requested plate ids stand for in the real object (and whether some id names no plate)"""
+        by_id = {int(i): int(t) for t, i in pmap}
+        return sorted({by_id[i] for i in ids if i in by_id}), any(i not in by_id for i in ids)
+
     def after(self):
         return {"train": self.fx.project(self.scr["train"]), "test": self.fx.project(self.scr["test"]),
                 "files": [self.fproj[p] for p in self.paths]}
@@ -207,6 +212,7 @@ class World:
         elif op == "reveal":
             s = self.scr[e["h"]]
             ids = list(e["S"]) + ([e["S"][0]] if e.get("repeat") and e["S"] else [])
+            ev["Sn"], ev["unk"] = self.names_of(fx.project(s)["pmap"], ids)
             before = json.dumps(fx.project(s), sort_keys=True)
             st, r = outcome(R.reveal_plates, s, ids)
             # reveal returns a new screen: the one it was given (a simulation may still hold it) is what it was
@@ -230,6 +236,7 @@ class World:
                 self.scr[e["h"]] = r
         elif op == "set_observed":
             s = self.scr[e["h"]]
+            ev["Pn"], _ = self.names_of(fx.project(s)["pmap"], list(e["P"]))
             sel = np.isin(s.plate_ids, list(e["P"]))
             vals = np.array([fx.newval(i + 1) for i in range(s.size) if sel[i]], dtype=float)
             st, r = outcome(s.set_observed, sel, vals)
@@ -237,6 +244,9 @@ class World:
                 self.raised = "set_observed raised: " + r
         elif op == "merge":
             s = self.scr[e["h"]]
+            an, _ = self.names_of(fx.project(s)["pmap"], [e["a"]])
+            bn, _ = self.names_of(fx.project(s)["pmap"], [e["b"]])
+            ev["an"], ev["bn"] = (an + [99])[0], (bn + [99])[0]
             st, r = outcome(lambda: s.get_plate(e["a"]).merge(s.get_plate(e["b"])))
             if st != "ok":
                 self.raised = "Plate.merge raised: " + r
@@ -255,6 +265,7 @@ class World:
         elif op == "cli_reveal":
             from batchie.cli import reveal_plate
             out = self.fn(e["q"]) + ".new"
+            ev["Sn"], ev["unk"] = self.names_of(self.fproj[e["p"]].get("pmap", []), list(e["S"]))
             st, r = _cli(reveal_plate.main, ["--screen", self.fn(e["p"]), "--output", out, "--plate-id"] + [str(x) for x in e["S"]])
             if st == "ok":
                 os.replace(out, self.fn(e["q"]))
@@ -294,8 +305,10 @@ class World:
             self.events.append(ev)
             return False
         ev["after"] = self.after()
-        for k in ("S", "P", "sel"):
+        for k in ("S", "P", "sel", "Sn", "Pn"):
             ev.setdefault(k, [])
+        for k, d in (("unk", False), ("an", 0), ("bn", 0)):
+            ev.setdefault(k, d)
         for k, d in (("h", "train"), ("p", 1), ("q", 1), ("refused", False), ("a", 0), ("b", 0), ("arg_same", True)):
             ev.setdefault(k, d)
         ev.setdefault("meta", {})
@@ -474,9 +487,21 @@ def run_lifecycle(ctx, focus):
                 if w.events:
                     ok.append(w)
             total_paths += len(pick)
-            bad = validate(ctx, "TraceLifecycle", [{"events": w.events, "prepared": w.prepared} for w in ok], decide=None, next_="TNext", init="TInit",
-                           invariants=["TInv"], constants={"Zero": 1, "MaxDepth": 99, "Paths": {1, 2}, "Export": False, "Focus": focus},
+            tconst = {"Zero": 1, "MaxDepth": 99, "Paths": {1, 2}, "Export": False, "Focus": focus, "Strict": False}
+            tr_ = [{"events": w.events, "prepared": w.prepared} for w in ok]
+            bad = validate(ctx, "TraceLifecycle", tr_, decide=None, next_="TNext", init="TInit", invariants=["TInv"], constants=tconst,
                            extra_files={"fixture.json": fjson}, note="fixture %s" % fx.name)
+            if focus == "C12":
+                # conformance of the numbering the specification assumes (plate id = rank of the plate name): a drift note, not a verdict
+                before = ctx.traces
+                drift = validate(ctx, "TraceLifecycle", tr_, decide=None, next_="TNext", init="TInit", invariants=["TInv"], constants=dict(tconst, Strict=True),
+                                 extra_files={"fixture.json": fjson}, note="fixture %s: plate ids as numbered by Lifecycle.tla" % fx.name)
+                ctx.traces = before
+                only = [d for d in drift if d[0] not in {b_[0] for b_ in bad}]
+                ctx.extra["model_drift"] = ctx.extra.get("model_drift", 0) + len(only)
+                if only:
+                    print("NOTE model-drift property=C12: %d history(ies) satisfy every clause of C12 but number the plates differently from Lifecycle.tla "
+                          "(first at '%s'); the transcription of the plate encoding needs updating" % (len(only), only[0][1]))
             # FIXTURE_FILE must be visible to the trace run as well
             for i, clause in bad[:2]:
                 w = ok[i]
@@ -501,7 +526,7 @@ def run_lifecycle(ctx, focus):
                 pool = [w for w in ok if (focus != "C02" or any(e["op"] == "save" for e in w.events))]
                 if pool:
                     selftest(ctx, "TraceLifecycle", {"events": pool[0].events, "prepared": pool[0].prepared}, corrupt, decide=None, next_="TNext", init="TInit", invariants=["TInv"],
-                             constants={"Zero": 1, "MaxDepth": 99, "Paths": {1, 2}, "Export": False, "Focus": focus}, extra_files={"fixture.json": fjson})
+                             constants=tconst, extra_files={"fixture.json": fjson})
             if ok:
                 ctx.sample({"fixture": fx.name, "history": [{k: v for k, v in e.items() if k != "after"} for e in ok[0].events][:6]})
     finally:
@@ -541,7 +566,7 @@ def replay_lifecycle(ctx, focus, rp):
             ctx.violation("replay: " + w.raised, rp)
         w.events = [e for e in w.events if "after" in e]
         bad = validate(ctx, "TraceLifecycle", [{"events": w.events, "prepared": w.prepared}], decide=None, next_="TNext", init="TInit", invariants=["TInv"],
-                       constants={"Zero": 1, "MaxDepth": 99, "Paths": {1, 2}, "Export": False, "Focus": focus},
+                       constants={"Zero": 1, "MaxDepth": 99, "Paths": {1, 2}, "Export": False, "Focus": focus, "Strict": False},
                        extra_files={"fixture.json": fx.to_json()})
         for i, clause in bad:
             ctx.finding_or_violation(focus, fx, w, clause)
